@@ -19,6 +19,7 @@ fn main() {
         "builder" => misc::builder(&args[2..]),
         "proc" => misc::proc_worker(&args[2..]),
         "grow" => misc::grow(&args[2..]),
+        "damage" => misc::damage(&args[2..]),
         #[cfg(feature = "hooks")]
         "threads" => sched::main(&args[2..]),
         _ => {
